@@ -668,6 +668,9 @@ func argValue(c *ssa.CallCommon, idx int) ssa.Value {
 			off = 1
 		}
 	}
+	if f := c.StaticCallee(); f != nil && idx >= 0 && len(f.Params) == len(c.Args) {
+		idx = permutedIndex(f, idx+off) - off // a reordered signature: the table's position follows the parameter's name
+	}
 	if idx+off < len(c.Args) && idx+off >= 0 {
 		return c.Args[idx+off]
 	}
@@ -1787,6 +1790,7 @@ func (r *Report) ctorField(key, fnKey, field string, idx int) {
 		r.Unres(k, d, "no such parameter")
 		return
 	}
+	idx = permutedIndex(fn, idx) // a reordered signature: the position follows the parameter
 	sites := w.Sites(fn, StoreEff(field))
 	if len(sites) != 1 {
 		r.Unres(k, d, fmt.Sprintf("%d stores to the field", len(sites)))
